@@ -362,7 +362,7 @@ def run(tier, seed):
                 continue
             if any(n in ex.get(v, []) for n in names):
                 continue
-            fg = True
+            fg = rng.random() < .6        # (with group finding off the segments are flat, and must follow the profile all the same: defect D39)
             # the three selection outcomes and the restating profile
             for mode in ('none', 'present', 'absent', 'legacy'):
                 jobs.append((text, False, fg, (v, st, [], mode)))
@@ -386,7 +386,7 @@ def run(tier, seed):
                     if rows and len(set(r[0] for r in rows)) == len(rows):
                         r = rng.choice(rows)
                         e = ['C', 'g', G, r[0], r[2][0], 7 if r[2][1] == -1 else r[2][1] + 1]
-                        jobs.append((text2, False, fg, (v, st, [e], 'present')))
+                        jobs.append((text2, False, True, (v, st, [e], 'present')))
                         meta.append({'kind': 'edit', 'version': v, 'structure': st, 'edit': e, 'repeated_group': G})
                 break
             for e, groups in cands:
